@@ -242,6 +242,14 @@ def spec_call(ex, e, fr):
         return vbool(smt.STR.is_SCat(ex.ev(e.args[0], fr).t))
     if name == "str_int":
         return vint(smt.STR.sint(ex.ev(e.args[0], fr).t))
+    if name == "str_tail_n":
+        t_ = ex.ev(e.args[0], fr).t
+        for _ in range(z3.simplify(ex.ev(e.args[1], fr).t).as_long()):
+            t_ = smt.STR.stail(t_)
+        return Val(Ty("str"), t_)
+    if name == "str_fl":
+        smt.str_lit(e.args[0].value)
+        return Val(Ty("str"), smt.STR.SFl(z3.IntVal(smt._LITS[e.args[0].value]), ex.coerce(ex.ev(e.args[1], fr), "fl").t))
     if name == "str_head":
         return Val(Ty("str"), smt.STR.shead(ex.ev(e.args[0], fr).t))
     if name == "str_tail":
